@@ -7,7 +7,10 @@ package main
 // keepFullObjectsInMemory); the MonitorConfig the loader built goes into
 // a real resourceInformer (verif_export_c08.go) on kube-client/fake. The
 // initial objects are created through the fake client's dynamic tracker and loaded by the real
-// createSharedInformer/loadExistedObjects; every later change is handed to the real
+// createSharedInformer/loadExistedObjects (the binding's kind spelled the way the hook wrote it:
+// Kind, other letter case, plural resource name, short name); then the start sequence: objects are
+// changed / created between the monitor's list and the informer start and the informer's list is
+// handed to the real OnAdd with isInInitialList = true; every later change is handed to the real
 // OnAdd/OnUpdate/OnDelete → handleWatchEvent; the events the informer emits are collected from its
 // callback; the cache is read through the real getCachedObjects. In "cluster" cases the informer is
 // started on the fake client and the changes are made in the cluster instead.
@@ -159,6 +162,12 @@ func (e *c08Env) cacheText() string {
 	return joinStrs(ps)
 }
 
+// cacheLine: the cache and the snapshot after a batch of quiet records.
+func (e *c08Env) cacheLine() {
+	e.c.Op("cache", "cache="+e.cacheText())
+	e.c.Oracle(strings.TrimSpace("snap " + e.snapTokens()))
+}
+
 func g4NameOf(resourceId string) string { return resourceId[strings.LastIndex(resourceId, "/")+1:] }
 
 // snapTokens renders the snapshot for the `oracle snap` line: id~filterResult~object.
@@ -189,6 +198,7 @@ type c08Binding struct {
 	exec, watch *[]kemtypes.WatchEventType
 	v0          *[]string // legacy hook (no configVersion): the `event` list as written (add, update, delete)
 	asYAML      bool      // render the hook configuration as block YAML instead of JSON
+	kind        string    // the `kind` of the binding as the hook spells it ("" = ConfigMap)
 	keepKey     bool      // keep=true: write `keepFullObjectsInMemory: true` instead of leaving the default
 }
 
@@ -235,9 +245,54 @@ func c08GenV0Events(rng *Rng) *[]string {
 	return &l
 }
 
+// c08KindSpellings: every way the API resolves the kind of a binding to ConfigMaps (kube-client
+// compares the lower-cased `kind` with the Kind, the resource name and the short names the discovery
+// reports): the Kind itself, other letter cases, the plural resource name, the short name.
+var c08KindSpellings = []string{"configmap", "configmaps", "cm", "CONFIGMAP", "ConfigMaps", "CM", "Configmap", "configMap"}
+
+func c08GenKind(rng *Rng) string {
+	if rng.Chance(45) {
+		return "ConfigMap"
+	}
+	return PickOne(rng, c08KindSpellings)
+}
+
+func c08KindClass(k string) string {
+	switch l := strings.ToLower(k); {
+	case k == "" || k == "ConfigMap":
+		return "Kind"
+	case l == "cm":
+		return "short-name"
+	case l == "configmaps":
+		return "plural-resource-name"
+	}
+	return "other-letter-case"
+}
+
+// c08FakeCluster: a fake cluster whose discovery reports the short name of ConfigMaps the way a real
+// api-server does (the resource tables of kube-client/fake have none). The tables are package
+// variables of kube-client/fake: this cluster gets a deep copy.
+func c08FakeCluster() *fake.Cluster {
+	fc := fake.NewFakeCluster(fake.ClusterVersionV121)
+	var lists []*metav1.APIResourceList
+	for _, l := range fc.Discovery.Resources {
+		l = l.DeepCopy()
+		if l.GroupVersion == "v1" {
+			for i := range l.APIResources {
+				if l.APIResources[i].Name == "configmaps" {
+					l.APIResources[i].ShortNames = []string{"cm"}
+				}
+			}
+		}
+		lists = append(lists, l)
+	}
+	fc.Discovery.Resources = lists
+	return fc
+}
+
 // c08GenBinding: executeHookOnEvent absent/[]/subset x watchEvent absent/[]/subset.
 func c08GenBinding(rng *Rng) c08Binding {
-	b := c08Binding{asYAML: rng.Bool(), keepKey: rng.Bool()}
+	b := c08Binding{asYAML: rng.Bool(), keepKey: rng.Bool(), kind: c08GenKind(rng)}
 	switch k := rng.Intn(100); {
 	case k < 45: // the usual binding: executeHookOnEvent only
 		b.exec = c08GenKey(rng, 0)
@@ -281,9 +336,13 @@ func c08LoadHook(v0 bool, specs []c08Spec, asYAML bool, ns string) ([]*kem.Monit
 		if len(specs) > 1 {
 			name = fmt.Sprintf("b%d", i)
 		}
+		kind := sp.b.kind
+		if kind == "" {
+			kind = "ConfigMap"
+		}
 		var bind map[string]any
 		if v0 {
-			bind = map[string]any{"name": name, "kind": "ConfigMap",
+			bind = map[string]any{"name": name, "kind": kind,
 				"namespaceSelector": map[string]any{"matchNames": []any{ns}}}
 			if sp.b.v0 != nil {
 				evs := []any{}
@@ -293,7 +352,7 @@ func c08LoadHook(v0 bool, specs []c08Spec, asYAML bool, ns string) ([]*kem.Monit
 				bind["event"] = evs
 			}
 		} else {
-			bind = map[string]any{"name": name, "apiVersion": "v1", "kind": "ConfigMap",
+			bind = map[string]any{"name": name, "apiVersion": "v1", "kind": kind,
 				"namespace": map[string]any{"nameSelector": map[string]any{"matchNames": []any{ns}}}}
 			if sp.b.exec != nil {
 				bind["executeHookOnEvent"] = lst(*sp.b.exec)
@@ -352,7 +411,7 @@ func c08Setup(c *Case, b c08Binding, f *jqF, keep bool, initial []map[string]any
 // load them. The result is the first binding's environment; deliver/jqProbe on it address all of them.
 func c08SetupHook(c *Case, v0 bool, specs []c08Spec, asYAML bool, initial []map[string]any) *c08Env {
 	ns := fmt.Sprintf("c08-%d", c.Idx)
-	fc := fake.NewFakeCluster(fake.ClusterVersionV121)
+	fc := c08FakeCluster()
 	ids := NewInterner()
 	states := map[string]map[string]any{}
 	store := &c08Store{objs: map[string]*unstructured.Unstructured{}, text: map[string]string{}}
@@ -388,11 +447,16 @@ func c08SetupHook(c *Case, v0 bool, specs []c08Spec, asYAML bool, initial []map[
 			e.events = append(e.events, ev)
 			e.mu.Unlock()
 		})
-		if v0 {
-			c.Op(fmt.Sprintf("cfg v0 event=%s jq=%s ast=%s", c08NamesArg(sp.b.v0), jqText, ast), ans)
-		} else {
-			c.Op(fmt.Sprintf("cfg exec=%s watch=%s keep=%d jq=%s ast=%s", c08KeyArg(sp.b.exec), c08KeyArg(sp.b.watch), kp, jqText, ast), ans)
+		kind := sp.b.kind
+		if kind == "" {
+			kind = "ConfigMap"
 		}
+		if v0 {
+			c.Op(fmt.Sprintf("cfg v0 kind=%s event=%s jq=%s ast=%s", kind, c08NamesArg(sp.b.v0), jqText, ast), ans)
+		} else {
+			c.Op(fmt.Sprintf("cfg kind=%s exec=%s watch=%s keep=%d jq=%s ast=%s", kind, c08KeyArg(sp.b.exec), c08KeyArg(sp.b.watch), kp, jqText, ast), ans)
+		}
+		c.Note("kind:" + c08KindClass(kind))
 		got := g4TypesArg(cfg.EventTypes)
 		c.Op("types", got)
 		c.Oracle("types " + got)
@@ -508,6 +572,15 @@ func (e *c08Env) jqProbe(obj map[string]any) {
 // the binding's snapshot is read (record: getCachedObjects, what a hook run does), so reads of one
 // binding's snapshot lie between the deliveries to the others and before every re-delivery.
 func (e *c08Env) deliver(t kemtypes.WatchEventType, name string, obj map[string]any) {
+	e.deliverX(t, name, obj, false)
+}
+
+// deliverInitial: an Added of the list the shared informer made on start (isInInitialList = true).
+func (e *c08Env) deliverInitial(name string, obj map[string]any) {
+	e.deliverX(kemtypes.WatchEventAdded, name, obj, true)
+}
+
+func (e *c08Env) deliverX(t kemtypes.WatchEventType, name string, obj map[string]any, initial bool) {
 	u, same := e.store.ptr(name, obj)
 	if same {
 		e.c.Note("redeliver:same-pointer")
@@ -524,7 +597,11 @@ func (e *c08Env) deliver(t kemtypes.WatchEventType, name string, obj map[string]
 		pe.takeEvents()
 		switch t {
 		case kemtypes.WatchEventAdded:
-			pe.inf.OnAdd(u)
+			if initial {
+				pe.inf.OnAddInitial(u)
+			} else {
+				pe.inf.OnAdd(u)
+			}
 		case kemtypes.WatchEventModified:
 			pe.inf.OnUpdate(u)
 		case kemtypes.WatchEventDeleted:
@@ -542,6 +619,13 @@ func (e *c08Env) deliver(t kemtypes.WatchEventType, name string, obj map[string]
 }
 
 func (e *c08Env) record(t kemtypes.WatchEventType, name string, obj map[string]any, evs []kemtypes.KubeEvent) {
+	e.recordX(t, name, obj, evs, false)
+}
+
+// recordX, quiet: the cache is not part of the answer (line `evq`) and no snapshot is judged — for a
+// batch of changes whose handling was not observed one by one (the replay of the informer's initial
+// list in cluster mode); the batch ends with cacheLine.
+func (e *c08Env) recordX(t kemtypes.WatchEventType, name string, obj map[string]any, evs []kemtypes.KubeEvent, quiet bool) {
 	fired, got, fr := "-", 0, "-"
 	if len(evs) == 1 && len(evs[0].Objects) == 1 && len(evs[0].WatchEvents) == 1 && evs[0].Type == kemtypes.TypeEvent {
 		if evs[0].WatchEvents[0] == kemtypes.WatchEventDeleted {
@@ -561,9 +645,14 @@ func (e *c08Env) record(t kemtypes.WatchEventType, name string, obj map[string]a
 		fired = fmt.Sprintf("unexpected-%d-events", len(evs))
 		got = len(evs)
 	}
-	e.c.Op(fmt.Sprintf("ev %s %d %s", t, e.ids.Id(name), g4CanonJSON(obj)), fmt.Sprintf("fired=%s cache=%s", fired, e.cacheText()))
-	e.c.Oracle(fmt.Sprintf("fired got=%d fr=%s", got, fr))
-	e.c.Oracle(strings.TrimSpace("snap " + e.snapTokens()))
+	if quiet {
+		e.c.Op(fmt.Sprintf("evq %s %d %s", t, e.ids.Id(name), g4CanonJSON(obj)), fmt.Sprintf("fired=%s", fired))
+		e.c.Oracle(fmt.Sprintf("fired got=%d fr=%s", got, fr))
+	} else {
+		e.c.Op(fmt.Sprintf("ev %s %d %s", t, e.ids.Id(name), g4CanonJSON(obj)), fmt.Sprintf("fired=%s cache=%s", fired, e.cacheText()))
+		e.c.Oracle(fmt.Sprintf("fired got=%d fr=%s", got, fr))
+		e.c.Oracle(strings.TrimSpace("snap " + e.snapTokens()))
+	}
 	if t == kemtypes.WatchEventDeleted {
 		delete(e.states, name)
 	} else {
@@ -786,10 +875,44 @@ func c08History(e *c08Env, rng *Rng, f *jqF, names []string, steps int) (changes
 	}
 	for _, n := range g4SortedKeys(e.states) {
 		probe(e.states[n])
-		// informer start: every listed object is delivered as Added once more
-		if rng.Chance(70) {
-			e.deliver(kemtypes.WatchEventAdded, n, e.states[n])
-			e.c.Note("redeliver:start-replay")
+	}
+	// The real start sequence. T0: the monitor listed the objects itself (loadExistedObjects, done by
+	// the setup). Between T0 and T1 the cluster goes on changing: listed objects are changed, new ones
+	// are created (nothing is delivered: no informer runs yet). T1: the shared informer starts, makes
+	// its OWN list and hands every object of it to the handler as Added with isInInitialList = true —
+	// for an unchanged object a re-delivery (silent), for the others the only notification there will
+	// ever be. (Objects deleted in the window are not generated: see notes/C08.md, fifth wave.)
+	if rng.Chance(90) {
+		atStart := map[string]map[string]any{}
+		changed := map[string]string{}
+		for _, n := range names {
+			cur, live := e.states[n]
+			switch {
+			case live && rng.Chance(35):
+				var o map[string]any
+				ok := false
+				if rng.Chance(20) {
+					o, ok = c08Retype(rng, cur, f)
+				}
+				if !ok {
+					o = c08Mutate(rng, cur, f, PickOne(rng, []string{"inside", "inside", "outside", "any"}))
+				}
+				atStart[n], changed[n] = o, "window:changed-between-list-and-start"
+			case live:
+				atStart[n] = cur
+			case rng.Chance(30):
+				atStart[n], changed[n] = c08GenObject(rng, e.ns, n), "window:created-between-list-and-start"
+			}
+		}
+		for _, n := range g4SortedKeys(atStart) {
+			probe(atStart[n])
+			e.deliverInitial(n, atStart[n])
+			if note, ok := changed[n]; ok {
+				e.c.Note(note)
+				changes++
+			} else {
+				e.c.Note("redeliver:start-replay")
+			}
 		}
 	}
 	for i := 0; i < steps; i++ {
@@ -892,7 +1015,7 @@ func c08Obj(ns, name string, replicas int64, a any, x int64) map[string]any {
 }
 
 func runC08(r *Run) {
-	r.Rule = "per case: ONE HOOK CONFIGURATION with 1-3 kubernetes bindings on the same kind and namespace (55% one binding, 45% two or three = several handlers of one shared informer), 75% configVersion v1 (rendered as JSON or block YAML; per binding executeHookOnEvent absent / [] / any subset of {Added,Modified,Deleted} in any order, now and then with a repeated item, x the deprecated watchEvent absent / [] / any subset: 45% executeHookOnEvent only, 10% neither key = the default, 15% watchEvent only, 30% both keys; keepFullObjectsInMemory false / true / left out) and 25% the legacy format without configVersion (onKubernetesEvent, per binding `event:` [] or any subset of add/update/delete in any order, now and then with a repeated name); per binding a jq program drawn from the fragment (paths incl. missing keys, paths through scalars, .metadata, .metadata.managedFields, .metadata.annotations; literals, object/array construction, `//`; results object/array/scalar/null/error; 12% with two or three expressions joined by `,` = several outputs, merged the legacy way) or no filter (20%). The whole configuration is loaded by the real HookConfig.LoadAndValidate and the MonitorConfig the loader built FOR EACH BINDING, as it is after the whole hook was converted, goes into a real resourceInformer of its own on kube-client/fake. Objects are ConfigMap-shaped with a random subset of six leaves and, mostly, the metadata of a real cluster (60% metadata.managedFields with 1-2 managers, 35% annotations incl. kubectl's last-applied one, generation/creationTimestamp, finalizers, ownerReferences). 0-3 objects loaded by the real loadExistedObjects, then a history of 3-14 changes (3-9 for several bindings) over 1-3 objects handed to the real OnAdd/OnUpdate/OnDelete of EVERY binding in turn, the way a shared informer does it: the harness keeps ONE *unstructured.Unstructured per live object (the informer's store), a new state is a new pointer, a re-delivery of an unchanged state hands the SAME pointer to every handler once more; after every handler call that binding's snapshot is read through the real getCachedObjects (what a hook run does), so snapshot reads lie between the deliveries to the other bindings and before every re-delivery. Steps: informer-start replay of the listed objects, resync of the identical state (same pointer), changes only outside the first binding's filter paths, changes inside them (leaves, an annotation, the managedFields list), changes of the TYPE of a leaf inside them with the same JSON text (3 <-> '3', true <-> 'true', absent/null <-> 'null', an array or object <-> the string holding its text; 12% of the steps, half of them followed by the way back), A->B->A, deletes (also with a final state that differs from the cached one; every other one as DeletedFinalStateUnknown), re-adds, Modified and Deleted for objects the informer does not know. Every distinct object state is also run through the real applyFilter with every binding's filter and compared with the model's jq evaluator. Plus: all 64 pairs of `event` subsets for a legacy hook with two bindings (create, change, resync, delete). A case is non-trivial when it delivers >= 3 changes and contains at least one re-delivery or outside-only change; distinct = distinct op-line sequences. `cluster` cases (one v1 binding) start the informer on the fake client and change the objects in the cluster instead."
+	r.Rule = "per case: ONE HOOK CONFIGURATION with 1-3 kubernetes bindings on the same kind and namespace, the `kind` of every binding spelled in one of the ways the API resolves it (45% the Kind `ConfigMap`, otherwise another letter case, the plural resource name `configmaps` or the short name `cm` — the fake cluster's discovery reports the short name) (55% one binding, 45% two or three = several handlers of one shared informer), 75% configVersion v1 (rendered as JSON or block YAML; per binding executeHookOnEvent absent / [] / any subset of {Added,Modified,Deleted} in any order, now and then with a repeated item, x the deprecated watchEvent absent / [] / any subset: 45% executeHookOnEvent only, 10% neither key = the default, 15% watchEvent only, 30% both keys; keepFullObjectsInMemory false / true / left out) and 25% the legacy format without configVersion (onKubernetesEvent, per binding `event:` [] or any subset of add/update/delete in any order, now and then with a repeated name); per binding a jq program drawn from the fragment (paths incl. missing keys, paths through scalars, .metadata, .metadata.managedFields, .metadata.annotations; literals, object/array construction, `//`; results object/array/scalar/null/error; 12% with two or three expressions joined by `,` = several outputs, merged the legacy way) or no filter (20%). The whole configuration is loaded by the real HookConfig.LoadAndValidate and the MonitorConfig the loader built FOR EACH BINDING, as it is after the whole hook was converted, goes into a real resourceInformer of its own on kube-client/fake. Objects are ConfigMap-shaped with a random subset of six leaves and, mostly, the metadata of a real cluster (60% metadata.managedFields with 1-2 managers, 35% annotations incl. kubectl's last-applied one, generation/creationTimestamp, finalizers, ownerReferences). 0-3 objects loaded by the real createSharedInformer/loadExistedObjects (the monitor's own list, T0); then, in 90% of the cases, THE START SEQUENCE: between T0 and the informer start 35% of the listed objects are changed (inside / outside the filter paths, retype) and 30% of the not yet existing ones are created, nothing is delivered; then every object of the informer's own list is handed to the real OnAdd with isInInitialList = true (an unchanged one: a re-delivery that must be silent; a changed / created one: the only notification there is — it must update the snapshot and trigger as Added iff Added is listed and the projection differs); then a history of 3-14 changes (3-9 for several bindings) over 1-3 objects handed to the real OnAdd/OnUpdate/OnDelete of EVERY binding in turn, the way a shared informer does it: the harness keeps ONE *unstructured.Unstructured per live object (the informer's store), a new state is a new pointer, a re-delivery of an unchanged state hands the SAME pointer to every handler once more; after every handler call that binding's snapshot is read through the real getCachedObjects (what a hook run does), so snapshot reads lie between the deliveries to the other bindings and before every re-delivery. Steps: resync of the identical state (same pointer), changes only outside the first binding's filter paths, changes inside them (leaves, an annotation, the managedFields list), changes of the TYPE of a leaf inside them with the same JSON text (3 <-> '3', true <-> 'true', absent/null <-> 'null', an array or object <-> the string holding its text; 12% of the steps, half of them followed by the way back), A->B->A, deletes (also with a final state that differs from the cached one; every other one as DeletedFinalStateUnknown), re-adds, Modified and Deleted for objects the informer does not know. Every distinct object state is also run through the real applyFilter with every binding's filter and compared with the model's jq evaluator. Plus: all 64 pairs of `event` subsets for a legacy hook with two bindings (create, change, resync, delete). A case is non-trivial when it delivers >= 3 changes and contains at least one re-delivery or outside-only change; distinct = distinct op-line sequences. `cluster` cases (one or two v1 bindings) drive the real start sequence on the fake client: every binding lists through the real createSharedInformer; each object is changed / created in the cluster with 45% before anything watches; the first binding starts the real shared informer (FactoryStore.Start: the initial list is replayed with isInInitialList = true); the second binding is attached LATER to the running informer, after more changes (its handler gets the store replayed); then changes in the cluster (incl. deletes once every binding is attached), a hidden marker object as barrier; the replay is observed as a batch (`evq` lines, then `cache`). Corpus: the start sequence with a changed and a created object (v1 / legacy), every kind spelling with a pre-existing object."
 
 	// ---- corpus: the counterexamples of the repaired defect (filter results that are not objects)
 	corpus := []struct {
@@ -1064,6 +1187,77 @@ func runC08(r *Run) {
 		})
 	}
 
+	// ---- corpus: the start sequence of a monitor — its own list (T0), changes in the cluster, the
+	// informer's list (T1) replayed as Added with isInInitialList = true
+	for i, ver0 := range []bool{false, true} {
+		i, ver0 := i, ver0
+		r.One(17+i, func(c *Case, _ *Rng) {
+			c.Desc = "corpus: o1 (replicas 1) and o3 are listed by the monitor; before the informer starts o1 is changed to replicas 2 and o2 is created; the informer's initial list (isInInitialList) is the only notification: Added is not listed — nothing triggers, the snapshot shows replicas 2 and o2; o3 is re-delivered unchanged; then a resync and a real change"
+			b := c08Binding{exec: &[]kemtypes.WatchEventType{kemtypes.WatchEventModified, kemtypes.WatchEventDeleted}}
+			if ver0 {
+				c.Desc += " — legacy hook format, Added listed: the two changes of the window trigger as Added, o3 does not"
+				b = c08Binding{v0: &[]string{"add", "update"}}
+			}
+			c.Nontrivial = true
+			ns := fmt.Sprintf("c08-%d", c.Idx)
+			e := c08SetupHook(c, ver0, []c08Spec{{b, g4Path("spec", "replicas"), true}}, false,
+				[]map[string]any{c08Obj(ns, "o1", 1, "x", 0), c08Obj(ns, "o3", 3, "z", 0)})
+			o1 := g4DeepCopyJSON(e.states["o1"])
+			g4SetPath(o1, []string{"spec", "replicas"}, int64(2))
+			o2 := c08Obj(ns, "o2", 5, "y", 0)
+			e.jqProbe(o1)
+			e.jqProbe(o2)
+			e.deliverInitial("o1", o1)
+			c.Note("window:changed-between-list-and-start")
+			e.deliverInitial("o2", o2)
+			c.Note("window:created-between-list-and-start")
+			e.deliverInitial("o3", e.states["o3"])
+			c.Note("redeliver:start-replay")
+			e.deliver(kemtypes.WatchEventModified, "o1", o1) // resync
+			o1b := g4DeepCopyJSON(o1)
+			g4SetPath(o1b, []string{"spec", "replicas"}, int64(3))
+			e.jqProbe(o1b)
+			e.deliver(kemtypes.WatchEventModified, "o1", o1b)
+			e.deliver(kemtypes.WatchEventDeleted, "o2", o2)
+		})
+	}
+	// ---- corpus: every spelling of the binding's kind the API resolves to ConfigMaps, with an object
+	// that exists when the monitor lists: the informer start re-delivers it — silent, once in the snapshot
+	for i, kind := range c08KindSpellings {
+		i, kind := i, kind
+		r.One(19+i, func(c *Case, _ *Rng) {
+			c.Desc = "corpus: binding with kind: " + kind + ", o1 exists when the monitor lists; informer start re-delivers it (silent, shown once in the snapshot), then a change outside the projection, one inside, a resync, Deleted (snapshot empty)"
+			c.Nontrivial = true
+			ns := fmt.Sprintf("c08-%d", c.Idx)
+			b := c08Binding{kind: kind, asYAML: i%2 == 1}
+			if i%4 == 3 {
+				b.v0 = &[]string{"add", "update", "delete"}
+			}
+			var f *jqF
+			if i%3 != 2 {
+				f = g4Path("spec")
+			}
+			e := c08SetupHook(c, i%4 == 3, []c08Spec{{b, f, true}}, b.asYAML, []map[string]any{c08Obj(ns, "o1", 1, "x", 0)})
+			if i%4 == 3 {
+				c.Desc += " — legacy hook format"
+			}
+			o1 := e.states["o1"]
+			e.jqProbe(o1)
+			e.deliverInitial("o1", o1)
+			c.Note("redeliver:start-replay")
+			o2 := g4DeepCopyJSON(o1)
+			g4SetPath(o2, []string{"status", "x"}, int64(7))
+			e.jqProbe(o2)
+			e.deliver(kemtypes.WatchEventModified, "o1", o2)
+			o3 := g4DeepCopyJSON(o2)
+			g4SetPath(o3, []string{"spec", "replicas"}, int64(2))
+			e.jqProbe(o3)
+			e.deliver(kemtypes.WatchEventModified, "o1", o3)
+			e.deliver(kemtypes.WatchEventModified, "o1", o3)
+			e.deliver(kemtypes.WatchEventDeleted, "o1", o3)
+		})
+	}
+
 	// ---- generated histories
 	n := r.N(3000, 50000)
 	r.Cases(100, n, 0, func(c *Case, rng *Rng) {
@@ -1232,39 +1426,110 @@ func runC08(r *Run) {
 	}
 }
 
-// c08ClusterCase: the informer is registered with a real shared informer of the fake client; the
+// c08ClusterCase: the informers are registered with a real shared informer of the fake client; the
 // harness changes the objects in the cluster. A marker object ("zz", hidden from the observation) is
-// created/deleted after every change: handlers run sequentially, so once the marker shows up in /
-// disappears from the informer's cache the change before it has been handled completely.
+// created/deleted after every change: the notifications of one handler are handled in order, so once
+// the marker shows up in / disappears from a handler's cache the change before it has been handled
+// completely. The real start sequence is driven: every binding lists the objects itself
+// (createSharedInformer → loadExistedObjects, T0); then the cluster changes (nobody watches yet); then
+// the first binding starts the shared informer, whose initial list is replayed to it as Added with
+// isInInitialList = true; a second binding of the hook (same kind, namespace, selectors = the same
+// shared informer) is attached LATER, after more changes: it gets the informer's store replayed, and
+// everything that happened since its own list reaches it in no other way.
 func c08ClusterCase(c *Case, rng *Rng) {
-	var f *jqF
-	if rng.Chance(85) {
-		f = g4GenProg(rng, 2, c08FilterPaths)
+	nb := 1
+	if rng.Chance(40) {
+		nb = 2
 	}
-	b := c08GenBinding(rng)
-	keep := rng.Bool()
+	var specs []c08Spec
+	for k := 0; k < nb; k++ {
+		sp := c08Spec{b: c08GenBinding(rng), keep: rng.Bool()}
+		if rng.Chance(85) {
+			sp.f = g4GenProg(rng, 2, c08FilterPaths)
+		}
+		specs = append(specs, sp)
+	}
+	f := specs[0].f
 	ns := fmt.Sprintf("c08-%d", c.Idx)
-	names := []string{"o1", "o2"}[:rng.Range(1, 2)]
+	names := []string{"o1", "o2", "o3"}[:rng.Range(1, 3)]
 	var initial []map[string]any
 	for _, nm := range names {
 		if rng.Chance(60) {
 			initial = append(initial, c08GenObject(rng, ns, nm))
 		}
 	}
-	e := c08Setup(c, b, f, keep, initial)
-	e.hide = "zz"
-	if e.loadErr {
-		// the monitor would not be created at all (CreateInformers returns the error): nothing to start
-		c.Note("mode:cluster-load-error")
-		return
+	e := c08SetupHook(c, false, specs, specs[0].b.asYAML, initial)
+	envs := e.peers
+	for _, pe := range envs {
+		pe.hide = "zz"
+		if pe.loadErr {
+			// the monitor would not be created at all (CreateInformers returns the error): nothing to start
+			c.Note("mode:cluster-load-error")
+			return
+		}
 	}
-	ctx, cancel := context.WithCancel(context.Background())
-	defer cancel()
-	e.inf.Start(ctx)
-	time.Sleep(50 * time.Millisecond) // the fake watch starts after the list; changes in between would be lost
 	dyn := e.fc.Client.Dynamic().Resource(g4CmGVR).Namespace(ns)
+	// what the cluster holds, and what every binding has seen of it (its own list so far)
+	cluster := map[string]map[string]any{}
+	seen := make([]map[string]string, nb)
+	for k := range seen {
+		seen[k] = map[string]string{}
+	}
+	for n, o := range e.states {
+		cluster[n] = o
+		for k := range seen {
+			seen[k][n] = g4CanonJSON(o)
+		}
+	}
+	// one change in the cluster; the state is read back as the cluster holds it
+	change := func(name string, allowDelete bool) (kemtypes.WatchEventType, map[string]any, bool) {
+		cur, live := cluster[name]
+		var t kemtypes.WatchEventType
+		switch {
+		case !live:
+			t = kemtypes.WatchEventAdded
+			if _, err := dyn.Create(context.TODO(), &unstructured.Unstructured{Object: c08GenObject(rng, ns, name)}, metav1.CreateOptions{}); err != nil {
+				c.Inconcl = "create failed: " + err.Error()
+				return t, nil, false
+			}
+		case allowDelete && rng.Chance(20):
+			if err := dyn.Delete(context.TODO(), name, metav1.DeleteOptions{}); err != nil {
+				c.Inconcl = "delete failed: " + err.Error()
+				return t, nil, false
+			}
+			delete(cluster, name)
+			return kemtypes.WatchEventDeleted, cur, true
+		default:
+			t = kemtypes.WatchEventModified
+			where := PickOne(rng, []string{"inside", "outside", "outside", "retype"})
+			var next map[string]any
+			ok := false
+			if where == "retype" {
+				if next, ok = c08Retype(rng, cur, f); ok {
+					c.Note("change:retype-same-text")
+				} else {
+					where = "inside"
+				}
+			}
+			if !ok {
+				next = c08Mutate(rng, cur, f, where)
+				c.Note("change:" + where + "-filter-paths")
+			}
+			if _, err := dyn.Update(context.TODO(), &unstructured.Unstructured{Object: g4DeepCopyJSON(next)}, metav1.UpdateOptions{}); err != nil {
+				c.Inconcl = "update failed: " + err.Error()
+				return t, nil, false
+			}
+		}
+		got, err := dyn.Get(context.TODO(), name, metav1.GetOptions{})
+		if err != nil {
+			c.Inconcl = "get failed: " + err.Error()
+			return t, nil, false
+		}
+		cluster[name] = g4DeepCopyJSON(got.Object)
+		return t, cluster[name], true
+	}
 	markerLive := false
-	barrier := func() bool {
+	barrier := func(wait ...*c08Env) bool {
 		if markerLive {
 			if err := dyn.Delete(context.TODO(), "zz", metav1.DeleteOptions{}); err != nil {
 				return false
@@ -1277,93 +1542,123 @@ func c08ClusterCase(c *Case, rng *Rng) {
 		}
 		markerLive = !markerLive
 		deadline := time.Now().Add(10 * time.Second)
-		for time.Now().Before(deadline) {
-			present := false
-			for _, o := range e.inf.CachedObjects() {
-				if g4NameOf(o.Metadata.ResourceId) == "zz" {
-					present = true
+		for _, pe := range wait {
+			for {
+				present := false
+				for _, o := range pe.inf.CachedObjects() {
+					if g4NameOf(o.Metadata.ResourceId) == "zz" {
+						present = true
+					}
+				}
+				if present == markerLive {
+					break
+				}
+				if !time.Now().Before(deadline) {
+					return false
+				}
+				time.Sleep(time.Millisecond)
+			}
+		}
+		return true
+	}
+	// the replay of the informer's list to a handler that has just been attached: one Added per
+	// object the cluster holds (unchanged since the binding's own list: a re-delivery), observed as a
+	// batch — the cache is read once, at the end
+	replayed := func(pe *c08Env) {
+		evs := pe.takeEvents()
+		for _, n := range g4SortedKeys(cluster) {
+			pe.jqProbe(cluster[n])
+		}
+		pe.bind()
+		for _, n := range g4SortedKeys(cluster) {
+			var mine []kemtypes.KubeEvent
+			for _, ev := range evs {
+				if len(ev.Objects) == 1 && g4NameOf(ev.Objects[0].Metadata.ResourceId) == n {
+					mine = append(mine, ev)
 				}
 			}
-			if present == markerLive {
-				return true
+			pe.recordX(kemtypes.WatchEventAdded, n, cluster[n], mine, true)
+			canon := g4CanonJSON(cluster[n])
+			switch old, was := seen[pe.k][n]; {
+			case !was:
+				c.Note("window:created-between-list-and-start")
+			case old != canon:
+				c.Note("window:changed-between-list-and-start")
+			default:
+				c.Note("redeliver:start-replay")
 			}
-			time.Sleep(time.Millisecond)
+			seen[pe.k][n] = canon
 		}
-		return false
+		pe.cacheLine()
 	}
-	if !barrier() {
-		c.Inconcl = "marker not seen after start"
+	changes := 0
+	// T0..T1: the window between the bindings' own lists and the start of the shared informer
+	for _, name := range names {
+		if rng.Chance(45) {
+			if _, _, ok := change(name, false); !ok {
+				return
+			}
+			changes++
+		}
+	}
+	ctx, cancel := context.WithCancel(context.Background())
+	defer cancel()
+	var attached []*c08Env
+	attach := func(pe *c08Env) bool {
+		if markerLive && !barrier(attached...) { // the marker must appear AFTER the replay
+			c.Inconcl = "marker not seen before an attach"
+			return false
+		}
+		pe.inf.Start(ctx)
+		if len(attached) == 0 {
+			time.Sleep(50 * time.Millisecond) // the fake watch starts after the list; changes in between would be lost
+		}
+		attached = append(attached, pe)
+		if !barrier(attached...) {
+			c.Inconcl = "marker not seen after start"
+			return false
+		}
+		replayed(pe)
+		return true
+	}
+	if !attach(envs[0]) {
 		return
 	}
-	// informer start: the listed objects were delivered as Added once more; this must have been silent
-	replay := e.takeEvents()
-	for _, n := range g4SortedKeys(e.states) {
-		var mine []kemtypes.KubeEvent
-		for _, ev := range replay {
-			if len(ev.Objects) == 1 && g4NameOf(ev.Objects[0].Metadata.ResourceId) == n {
-				mine = append(mine, ev)
-			}
-		}
-		e.record(kemtypes.WatchEventAdded, n, e.states[n], mine)
-		e.c.Note("redeliver:start-replay")
-	}
+	late := envs[1:]
 	steps := rng.Range(3, 8)
-	changes := 0
 	for i := 0; i < steps; i++ {
-		name := PickOne(rng, names)
-		cur, live := e.states[name]
-		var t kemtypes.WatchEventType
-		var next map[string]any
-		switch {
-		case !live:
-			t, next = kemtypes.WatchEventAdded, c08GenObject(rng, ns, name)
-			if _, err := dyn.Create(context.TODO(), &unstructured.Unstructured{Object: g4DeepCopyJSON(next)}, metav1.CreateOptions{}); err != nil {
-				c.Inconcl = "create failed: " + err.Error()
+		if len(late) > 0 && (i == steps-2 || rng.Chance(30)) {
+			// the second binding is attached to the running informer: its store is replayed
+			if !attach(late[0]) {
 				return
 			}
-		case rng.Chance(20):
-			t, next = kemtypes.WatchEventDeleted, cur
-			if err := dyn.Delete(context.TODO(), name, metav1.DeleteOptions{}); err != nil {
-				c.Inconcl = "delete failed: " + err.Error()
-				return
-			}
-		default:
-			where := PickOne(rng, []string{"inside", "outside", "outside", "retype"})
-			ok := false
-			if where == "retype" {
-				if next, ok = c08Retype(rng, cur, f); ok {
-					e.c.Note("change:retype-same-text")
-				} else {
-					where = "inside"
-				}
-			}
-			if !ok {
-				next = c08Mutate(rng, cur, f, where)
-				e.c.Note("change:" + where + "-filter-paths")
-			}
-			t = kemtypes.WatchEventModified
-			if _, err := dyn.Update(context.TODO(), &unstructured.Unstructured{Object: g4DeepCopyJSON(next)}, metav1.UpdateOptions{}); err != nil {
-				c.Inconcl = "update failed: " + err.Error()
-				return
-			}
+			late = late[1:]
+			c.Note("attach:late-handler-on-running-informer")
 		}
-		if t != kemtypes.WatchEventDeleted {
-			// the state as the cluster holds it
-			got, err := dyn.Get(context.TODO(), name, metav1.GetOptions{})
-			if err != nil {
-				c.Inconcl = "get failed: " + err.Error()
-				return
-			}
-			next = g4DeepCopyJSON(got.Object)
+		name := PickOne(rng, names)
+		// nothing is deleted while a binding that listed the object is not attached yet: it would
+		// never learn of it (see notes/C08.md, fifth wave)
+		t, next, ok := change(name, len(late) == 0)
+		if !ok {
+			return
 		}
 		changes++
-		if !barrier() {
+		if !barrier(attached...) {
 			c.Inconcl = "marker not seen after a change"
 			return
 		}
 		e.jqProbe(next)
-		e.record(t, name, next, e.takeEvents())
+		for _, pe := range attached {
+			pe.bind()
+			pe.record(t, name, next, pe.takeEvents())
+			if t == kemtypes.WatchEventDeleted {
+				delete(seen[pe.k], name)
+			} else {
+				seen[pe.k][name] = g4CanonJSON(next)
+			}
+		}
 	}
 	c.Nontrivial = changes >= 3
 	c.Note("mode:cluster")
+	c.Note(fmt.Sprintf("mode:cluster/bindings:%d", nb))
 }
